@@ -1,7 +1,7 @@
 """C01 - the encrypted packet layer delivers exactly the message stream that was sent.
 
 enum: every cipher x MAC x compression suite, both roles; bounded message-length sequences; every way
-(within the stated bound) the environment may answer recv(); key switches at every position.
+(within the stated bound) the environment may answer recv() and send(); key switches at every position.
 The sender is a real Transport keyed by _activate_outbound(), the receiver a real Transport keyed by
 _activate_inbound() (vmc.pktseam); the oracle is the list of messages handed to send_message.
 """
@@ -12,7 +12,7 @@ from vmc import core, enum as E, pktseam as P
 PID = "C01"
 META = {
     "level": "exploration",
-    "technique": "bounded-exhaustive enumeration of suites x message-length sequences x recv() answers "
+    "technique": "bounded-exhaustive enumeration of suites x message-length sequences x recv() / send() answers "
                  "x key-switch positions on two real Transports over an in-memory byte queue",
     "text": "All 144 cipher x MAC x compression suites in both directions: every message-length sequence "
             "of length <=2 (quick) / <=3 (thorough) over {1,11,16,255,4096,35000} in two content classes, a "
@@ -22,7 +22,11 @@ META = {
             "and - new dimension 'receiver re-key pending' - the whole/byte-wise/timeout/timeout+byte-wise reads "
             "repeated with the receiver's own re-key threshold reached (need_rekey up from the first message on; "
             "thorough: also from the last message on), NeedRekeyException answered by calling read_message again "
-            "as Transport.run does; key switches between every ordered pair of 16 framing x "
+            "as Transport.run does; new dimension 'socket send() answers' - the same deviations on the sender's socket: "
+            "per suite and direction the 3-message stream written to a socket that accepts at most 7 or 33 bytes per "
+            "send() call (1 byte for 16 class representatives; thorough: every suite), or everything, with no call or "
+            "exactly one call - every call index - raising socket.timeout / EAGAIN instead (thorough, 33 bytes: every "
+            "two calls), the bytes that reached the wire then read by the receiver; key switches between every ordered pair of 16 framing x "
             "compression classes at every position of a 4-message sequence (also two switches, strict-kex "
             "sequence reset on/off). Oracle: messages read == messages sent, reader never raises or stalls.",
     "note": "sender and receiver are both paramiko (symmetric bugs are C03/C04's job); payloads <= 70000 bytes; "
@@ -36,6 +40,8 @@ PTYPES = (94, 2, 80, 98, 255, 100, 3)
 FRAG_SEQS = ((5, 40, 17), (1,), (16, 1, 33))
 SWITCH_LENGTHS = (9, 40, 300, 17)
 REKEY_AFTER = (1, 2)    # receiver's REKEY_PACKETS threshold in the "re-key pending" reads of the frag part
+SEND_K = (1, 7, 33)     # "socket send() answers": send() accepts at most k bytes per call (None = everything)
+SEND_KINDS = ("timeout", "eagain")      # a send() call that accepts nothing: socket.timeout / socket.error(EAGAIN)
 # one representative per framing class (DESIGN 4/C01) plus 3des+etm and a second GCM, crossed with compression off/on
 CLASS_REPS = (
     ("aes128-ctr", "hmac-sha2-256"),
@@ -126,6 +132,8 @@ def report(acc, part, direction, script, read, verdict):
     z = ":zlib" if cur and cur[3] != "none" else ""
     dims = {"framing": cls, "zlib": bool(z), "read": env_of(read), "after-key-switch": nsw > 1,
             "rekey-pending": bool(read.get("rekey_after")), "delayed-compression": delayed_state(script, at)}
+    if part == "send":       # only the send part enumerates this dimension (regroup ignores it elsewhere)
+        dims["socket-send"] = send_class(read)
     if len(script) > 60:      # core.jsonable truncates long lists: store the generator instead
         case = {"dir": direction, "gen": "seq200", "suite": list(script[0][1:4]), "read": read}
     else:
@@ -133,9 +141,20 @@ def report(acc, part, direction, script, read, verdict):
     P.sig_violation(acc, clause, dims, {"part": part, "info": info, "case": case}, case)
 
 
+def send_class(read):
+    """How the sender's socket answered send(): whole | short (at most k bytes per call), then which call kinds
+    accepted nothing."""
+    kinds = sorted(set((read.get("send_faults") or {}).values()))
+    return "/".join(["short" if read.get("send_max") else "whole"] + kinds)
+
+
+SEND_CLASSES = {"short", "short/timeout", "short/eagain", "whole/timeout", "whole/eagain"}
+
+
 def run_case(direction, script, read, stream=None, sent=None):
     if stream is None:
-        stream, _chunks, sent = P.transmit(direction, script)
+        stream, _chunks, sent = P.transmit(direction, script, send_max=read.get("send_max"),
+                                           send_faults={int(k): v for k, v in (read.get("send_faults") or {}).items()})
     r = P.receive(direction, script, stream, max_chunk=read.get("max_chunk"),
                   cuts=read.get("cuts", ()), timeouts=read.get("timeouts", ()),
                   rekey_after=read.get("rekey_after"))
@@ -259,6 +278,73 @@ def do_frag(item, acc):
                                  % (len(stream) - 1, n_whole)})
 
 
+def fault_offset(chunks, k, i):
+    """Stream offset of the first byte not yet accepted when send() call number i is made (write_all sends packet by
+    packet, at most k bytes per call), or None if the stream needs fewer calls."""
+    off = 0
+    for c in chunks:
+        n = 1 if k is None else -(-len(c) // k)
+        if i < n:
+            return off + (0 if k is None else i * k)
+        i -= n
+        off += len(c)
+    return None
+
+
+def do_send(item, acc):
+    """Dimension 'socket send() answers' - the environment deviations of the frag part on the sender's side: the
+    socket accepts at most k bytes per send() call (short writes) and no call / exactly one call - every call index -
+    (thorough, k=33: every two calls) accepts nothing and raises socket.timeout or EAGAIN ("send buffer full"), which
+    Packetizer.write_all answers by trying again.  What reached the wire is then read by the receiver."""
+    _, tier, suite, direction, ks = item
+    seq = FRAG_SEQS[0]
+    script = [sw(suite)] + msgs(seq, "rep", salt0=50)
+    _, chunks, _ = P.transmit(direction, script)
+    for k in ks:
+        policies = [({"send_max": k} if k else None, ("plain",))]
+        n_calls = sum(1 if k is None else -(-len(c) // k) for c in chunks)
+        for i in range(n_calls):
+            shape = cut_shape(chunks, fault_offset(chunks, k, i))
+            for kind in SEND_KINDS:
+                policies.append(({"send_max": k, "send_faults": {i: kind}}, (kind,) + shape))
+        if tier != "quick" and k == SEND_K[-1]:
+            for i, j in itertools.combinations(range(n_calls + 1), 2):
+                for ki, kj in itertools.product(SEND_KINDS, repeat=2):
+                    policies.append(({"send_max": k, "send_faults": {i: ki, j: kj}},
+                                     (ki, kj, cut_shape(chunks, fault_offset(chunks, k, i)), min(j - i, 3))))
+        for read, shape in policies:
+            if read is None:
+                continue        # whole writes without a fault: the frag part's baseline
+            try:
+                stream, sent, r = run_case(direction, script, read)
+            except (EOFError, OSError) as e:
+                acc.ev()
+                report(acc, "send", direction, script, read, ("sender-raises:" + type(e).__name__, None, repr(e)))
+                continue
+            acc.ev()
+            last = P.transmit.last
+            # the call indices come from the unpatched packet sizes: a sender that writes differently may never reach
+            # them - such a case is still judged but does not count as a distinct non-trivial one
+            exercised = (last["send_faults_raised"] == len(read.get("send_faults") or ())
+                         and (not k or last["short_writes"] > 0))
+            if not exercised:
+                acc.count("send_policies_not_fully_exercised")
+            acc.count("send_calls", last["send_calls"])
+            acc.count("short_writes", last["short_writes"])
+            acc.count("send_would_block_answers", last["send_faults_raised"])
+            v = judge(script, sent, r)
+            if v:
+                report(acc, "send", direction, script, read, v)
+            elif exercised:
+                acc.nt(("send", suite, k, shape))
+            acc.count("messages_compared", len(sent))
+    if suite == P.all_suites()[5] and direction == "c2s":
+        acc.sample({"part": "send", "suite": suite, "dir": direction, "lengths": list(seq),
+                    "packet_wire_lens": [len(c) for c in chunks], "send_max": list(ks),
+                    "policies": "at most k bytes accepted per send(); no call / each single call raises "
+                                "socket.timeout / EAGAIN"})
+
+
 def switch_scripts(a, b, tier):
     """Scripts with one switch a->b after k messages, and two switches a->b->a after k1<=k2."""
     L = SWITCH_LENGTHS
@@ -338,7 +424,7 @@ def do_delayed(item, acc):
 
 
 def run_item(item, acc):
-    {"seq": do_seq, "frag": do_frag, "switch": do_switch, "delayed": do_delayed}[item[0]](item, acc)
+    {"seq": do_seq, "frag": do_frag, "switch": do_switch, "delayed": do_delayed, "send": do_send}[item[0]](item, acc)
 
 
 def items_for(tier):
@@ -350,6 +436,14 @@ def items_for(tier):
             items.append(("frag", tier, s, d))
     reps = CLASS_REPS_T     # same classes in both tiers, so finding keys do not depend on the tier
     classes = [(c, m, z) for (c, m) in reps for z in P.COMPRESSIONS]
+    # socket send() answers: whole writes + one would-block answer and short writes of 7 / 33 bytes for every suite;
+    # byte-wise writes for the class representatives (thorough: every suite)
+    for s in suites:
+        for d in ("c2s", "s2c"):
+            bytewise = tier != "quick" or s in classes
+            items.append(("send", tier, s, d, (None,) + SEND_K[1:]))
+            if bytewise:
+                items.append(("send", tier, s, d, SEND_K[:1]))
     for i, a in enumerate(classes):
         for j, b in enumerate(classes):
             items.append(("switch", tier, a, b, True))
@@ -373,16 +467,18 @@ def main(tier):
         "runs sender and receiver and compares the delivered list with the sent list. nontrivial = distinct "
         "(part, cipher, MAC, compression, message lengths mod cipher block size, content class, read shape "
         "[whole | bytewise | split point classified by packet index and region | index of the recv call that "
-        "timed out | the same with the receiver's re-key-due flag raised after 1 or 2 packets], switch kind/position/strict flag) tuples in which every message was delivered and compared",
+        "timed out | the same with the receiver's re-key-due flag raised after 1 or 2 packets], socket send() answers [bytes accepted per call, kind of the call that accepted nothing and the packet index and region of the next unsent byte], switch kind/position/strict flag) tuples in which every message was delivered and compared",
         ["sender and receiver are both paramiko Transports keyed from the same fixed K/H/session id",
-         "recv() never returns more than asked (stream socket semantics); only socket.timeout is injected",
+         "recv() never returns more than asked (stream socket semantics); only socket.timeout is injected on recv(), "
+         "socket.timeout / EAGAIN on send(); send() otherwise accepts a non-empty prefix of what it is given",
          "cryptography and zlib are trusted"])
     items = items_for(tier)
     ck.merge(core.pmap(items, run_item))
     P.regroup(ck, {"framing": {"ctr", "cbc", "3des", "gcm", "ctr+etm", "cbc+etm", "3des+etm"},
                    "zlib": {True, False}, "read": {"whole", "bytewise", "split", "timeout", "timeout+bytewise"},
                    "after-key-switch": {True, False}, "rekey-pending": {True, False},
-                   "delayed-compression": {"no", "pre-auth", "post-auth"}})
+                   "delayed-compression": {"no", "pre-auth", "post-auth"},
+                   "socket-send": SEND_CLASSES | (set() if tier == "quick" else {"short/eagain/timeout"})})
     ck.extra["bound"] = {
         "suites": len(P.all_suites()), "directions": 2,
         "sequence_alphabet": list(S6), "max_sequence_len": 2 if tier == "quick" else 3,
@@ -392,6 +488,9 @@ def main(tier):
         "receiver_rekey_thresholds": list(REKEY_AFTER[:1] if tier == "quick" else REKEY_AFTER),
         "switch_classes": len(CLASS_REPS_T) * 2,
         "delayed_compression_pairs": len([i for i in items if i[0] == "delayed"]),
+        "socket_send": {"max_bytes_per_call": [None] + list(SEND_K), "would_block_answers_per_stream":
+                        1 if tier == "quick" else 2, "kinds": list(SEND_KINDS),
+                        "bytewise_suites": len([i for i in items if i[0] == "send" and i[4] == SEND_K[:1]]) // 2},
         "work_items": len(items),
     }
     return ck.finish()
